@@ -177,6 +177,7 @@ type Case struct {
 	UserOpts   int     `json:"userDialOptions,omitempty"` // extra dial options of the caller: 1 default service config selecting pick_first, 2 one with only a retry policy, 3 one with another grpc_gcp config, 4 a user agent
 	NoDialFunc bool    `json:"noDialFunc,omitempty"`      // no DialFunc in the options: the library dials itself with the caller\'s options (reduced scenario, see RunDefaultDialer)
 	ExtClose   int     `json:"extClose,omitempty"`        // >0: right before Close the application itself closes the connection of one endpoint (the one with this index among the open pools) that it had handed out through its DialFunc
+	LateAppend bool    `json:"lateAppend,omitempty"`      // the caller passes its dial options as a slice with spare capacity and appends more options to that slice after the constructor returned
 	Init       Options `json:"init"`
 	Ops        []Op    `json:"ops"`
 	Failure    *Fail   `json:"failure,omitempty"`
@@ -723,7 +724,14 @@ func Run(c *Case, props map[string]bool) (res Result) {
 	if c.MinSize > 0 || c.MaxSize > 0 {
 		o.GRPCgcpConfig = &pb.ApiConfig{ChannelPool: &pb.ChannelPoolConfig{MinSize: uint32(c.MinSize), MaxSize: uint32(c.MaxSize)}}
 	}
-	gme, err := grpcgcp.NewGCPMultiEndpoint(o, userDialOptions(c.UserOpts)...)
+	callerOpts := append(make([]grpc.DialOption, 0, 16), userDialOptions(c.UserOpts)...)
+	gme, err := grpcgcp.NewGCPMultiEndpoint(o, callerOpts...)
+	if c.LateAppend {
+		// the slice is the caller's: appending to it later must not change what the object dials new pools with
+		_ = append(callerOpts, grpc.WithUserAgent("late-1"), grpc.WithDefaultServiceConfig(`{"loadBalancingConfig":[{"pick_first":{}}]}`), grpc.WithUserAgent("late-2"),
+			grpc.WithUserAgent("late-3"), grpc.WithUserAgent("late-4"), grpc.WithUserAgent("late-5"))
+		w.labels["caller-appends-to-its-options-slice-later"]++
+	}
 	if c.UserOpts != 0 {
 		w.labels["caller-dial-options"]++
 	}
@@ -737,17 +745,17 @@ func Run(c *Case, props map[string]bool) (res Result) {
 	w.settle("create", "C15")
 	w.checkPools("create")
 	// C17: every pool opens max(1, minSize) transport connections (counted at the in-memory dialer)
-	{
+	checkMin := func(what string, eps map[string]bool, base map[string]int) {
 		want := c.MinSize
 		if want < 1 {
 			want = 1
 		}
-		for e := range mentioned(model) {
+		for e := range eps {
 			if !w.up[e] {
 				continue
 			}
 			ep := all[e]
-			live0 := live0s[e]
+			live0 := base[e]
 			// at least max(1,minSize) connections; grpc-go may replace a still connecting subchannel when the
 			// balancer pushes the (same) address list right after creating it, and does not always close the
 			// abandoned transport promptly, so up to one extra connection per channel is tolerated
@@ -758,13 +766,14 @@ func Run(c *Case, props map[string]bool) (res Result) {
 				} else {
 					stable = 0
 					if time.Now().After(dl) {
-						w.fail("C17", "gme-min-size", "pool of %s holds %d live transport connections 5s after construction; effective minSize is %d (configured %d), expected %d..%d", e, n, want, c.MinSize, want, 2*want)
+						w.fail("C17", "gme-min-size", "pool of %s holds %d live transport connections 5s after %s; effective minSize is %d (configured %d), expected %d..%d", e, n, what, want, c.MinSize, want, 2*want)
 					}
 				}
 			}
 			w.labels["pool-transport-connections-checked"]++
 		}
 	}
+	checkMin("construction", mentioned(model), live0s)
 	if len(model) >= 2 {
 		w.labels["several-multiendpoints"]++
 	}
@@ -803,8 +812,25 @@ func Run(c *Case, props map[string]bool) (res Result) {
 					time.Sleep(time.Duration(op.Nth%4) * 500 * time.Microsecond) // let the reconnect get under way
 				}
 			}
+			liveBefore := map[string]int{}
+			for n, e := range all {
+				liveBefore[n] = e.liveConns()
+			}
 			if err := gme.UpdateMultiEndpoints(o); err != nil {
 				w.fail("C15", "update-rejected", "valid update rejected: %v", err)
+			}
+			if w.props["C17"] {
+				// pools dialed by this update run with the configuration given at construction
+				fresh := map[string]bool{}
+				for e := range mentioned(model) {
+					if len(w.dialed[e]) > before[e] && liveBefore[e] == 0 {
+						fresh[e] = true
+					}
+				}
+				if len(fresh) > 0 {
+					w.labels["pool-added-by-update-checked"]++
+					checkMin("the update that added it", fresh, liveBefore)
+				}
 			}
 			w.mes, w.def = model, def
 			w.dups = w.pendingDups
